@@ -37,11 +37,13 @@ class Solvers(object):
         )
 
     @classmethod
-    def scipy_lp(cls, p, G, h, A, b, *, method='highs-ds'):
+    def scipy_lp(cls, p, G, h, A, b, *, method='highs-ds', free_variables=()):
         from scipy.optimize import linprog
-        # All sign constraints are part of G/h. linprog's default bounds would add x >= 0 for every
-        # variable, including ones the caller left free (the improvement margin epsilon).
-        res = linprog(p, A_ub=G, b_ub=h, A_eq=A, b_eq=b, bounds=(None, None), method=method)
+        # linprog bounds every variable by (0, None) unless told otherwise. That is wanted for the
+        # c_{a,n_z} (kept at exactly >= 0 this way), but not for variables the caller leaves free
+        # (the improvement margin epsilon).
+        bounds = [(None, None) if i in free_variables else (0, None) for i in range(len(p))]
+        res = linprog(p, A_ub=G, b_ub=h, A_eq=A, b_eq=b, bounds=bounds, method=method)
         return Result(
             solution=res.x,
             result=res,
@@ -169,6 +171,9 @@ def improve_node_matrix_constraint(pomdp, V, node, *, solver=Solvers.scipy_lp, s
 
     # Solve the LP
     constraints = (p, G, h, A, b)
+    if solver == Solvers.scipy_lp:
+        # epsilon (the last parameter) may be negative when the node cannot be improved
+        solver_kwargs = dict(free_variables=(param_count - 1,), **solver_kwargs)
     result = solver(*constraints, **solver_kwargs)
 
     # Unpack the solution.
